@@ -12,11 +12,12 @@ import Driver.OpsVariation
 import Driver.OpsStrings
 import Driver.OpsParArch
 import Driver.OpsVarPhase
+import Driver.OpsEvalEffect
 /-! `bvdriver`: one operation per stdin line, one canonical result line per operation -/
 namespace Bingo
 
 def handlers : List (List String → Option String) :=
-  [Drv.OpsEval.handle, Drv.OpsReduce.handle, Drv.OpsHof.handle, Drv.OpsConverge.handle, Drv.OpsCas.handle, Drv.OpsMetrics.handle, Drv.OpsSavGol.handle, Drv.OpsPipeline.handle, Drv.OpsSelection.handle, Drv.OpsLocalOpt.handle, Drv.OpsVariation.handle, Drv.OpsStrings.handle, Drv.OpsParArch.handle, Drv.OpsVarPhase.handle]
+  [Drv.OpsEval.handle, Drv.OpsReduce.handle, Drv.OpsHof.handle, Drv.OpsConverge.handle, Drv.OpsCas.handle, Drv.OpsMetrics.handle, Drv.OpsSavGol.handle, Drv.OpsPipeline.handle, Drv.OpsSelection.handle, Drv.OpsLocalOpt.handle, Drv.OpsVariation.handle, Drv.OpsStrings.handle, Drv.OpsParArch.handle, Drv.OpsVarPhase.handle, Drv.OpsEvalEffect.handle]
 
 def dispatch (line : String) : String :=
   let parts := Drv.splitSemi line
